@@ -1,4 +1,4 @@
 CONSTANTS Base = 3000  Magnitudes = {3, 200, 40000, 70000}
-SPECIFICATION MCSpec
+SPECIFICATION HSpec
 INVARIANT Emit
 CHECK_DEADLOCK FALSE
